@@ -450,7 +450,8 @@ decodechar(const char *src, uint_least32_t *chr, bool *hexoct, const char *desc,
 		case 'v':  c = '\v'; ++s; break;
 		case 'x':
 			++s;
-			assert(isxdigit(*s));
+			if (!isxdigit(*s))
+				error(loc, "%s contains invalid escape sequence", desc);
 			c = 0;
 			do c = c * 16 + (*s > '9' ? 10 + tolower(*s) - 'a' : *s - '0');
 			while (isxdigit(*++s));
@@ -458,7 +459,8 @@ decodechar(const char *src, uint_least32_t *chr, bool *hexoct, const char *desc,
 				*hexoct = true;
 			break;
 		default:
-			assert(isodigit(*s));
+			if (!isodigit(*s))
+				error(loc, "%s contains invalid escape sequence", desc);
 			c = 0;
 			i = 0;
 			do c = c * 8 + (*s++ - '0');
